@@ -60,10 +60,10 @@ def G():
 
 
 # --------------------------------------------------------------------------------------------- scenarios
-WATCHES = ['len(locals())', 'locals()', '1/0', 'undefined_name', 'str(list(locals().values()))', 'max([1, 2])', '(',
+WATCHES = ['err', 'self.last_error', 'opts', 'cache', 'len(locals())', 'locals()', '1/0', 'undefined_name', 'str(list(locals().values()))', 'max([1, 2])', '(',
            'sorted(locals())', '[k for k in locals()]', 'type(locals()).__name__']
 CONDS = [None, None, 'True', 'False', '1/0', 'len(locals()) > 0', 'nope', '', 'len(locals()) > 1000']
-LOGS = ['hit {len(locals())}', 'x={undefined}', 'plain text', 'bad {', '{1/0}', '{}', 'v={sorted(locals())!r:>5}',
+LOGS = ['failed with {err}', 'hit {len(locals())}', 'x={undefined}', 'plain text', 'bad {', '{1/0}', '{}', 'v={sorted(locals())!r:>5}',
         '{len(locals())} and {max([3, 4])}']
 METRIC_TYPES = ['COUNTER', 'GAUGE', 'HISTOGRAM', 'SUMMARY']
 METRIC_EXPRS = [None, 'len(locals())', '1/0', '"text"', '7']
@@ -71,7 +71,7 @@ KINDS = ['snapshot', 'snapshot', 'log', 'metric', 'span_line', 'span_method', 'm
 FUNCS = {'calls': ['leaf', 'mid'], 'recursion': ['fact', 'fib'], 'exceptions': ['risky', 'guarded'],
          'generators': ['squares', '__next__'], 'threads': ['work'], 'dunders': ['touch'], 'seeded_random': ['draw'],
          'finalizers': ['use'], 'finalizers_nogc': ['use'], 'classes': ['deposit', 'fee', 'inc'], 'data': ['build', 'mutate'], 'loops': ['scan'],
-         'ghost': ['handle', 'helper']}
+         'ghost': ['handle', 'helper'], 'tracking_dicts': ['configure'], 'owned_exception': ['parse']}
 
 
 def random_tp(rng, prog, idx):
@@ -133,6 +133,20 @@ def corpus():
          'tps': [{'id': 'tp0', 'kind': 'snapshot', 'mark': 'B', 'fire_count': '-1', 'watches': ['lease', 'r'],
                   'frame_type': 'all_frame'},
                  {'id': 'tp1', 'kind': 'span_line', 'mark': 'A', 'fire_count': '-1'}]},
+        # locals that are dict subclasses with side-effecting access methods: the agent must not call them
+        {'kind': 'scenario', 'prog': 'tracking_dicts', 'inp': 1,
+         'tps': [{'id': 'tp0', 'kind': 'snapshot', 'mark': 'D', 'fire_count': '-1', 'watches': ['opts', 'cache'],
+                  'frame_type': 'all_frame'},
+                 {'id': 'tp1', 'kind': 'snapshot_log', 'mark': 'F', 'fire_count': '-1', 'log_msg': 'o={opts} c={cache}'}]},
+        # an exception object the host still owns is named by a watch / a log template inside the except block
+        {'kind': 'scenario', 'prog': 'owned_exception', 'inp': 1,
+         'tps': [{'id': 'tp0', 'kind': 'snapshot', 'mark': 'B', 'fire_count': '-1', 'watches': ['err', 'self.last_error']},
+                 {'id': 'tp1', 'kind': 'log', 'mark': 'C', 'fire_count': '-1', 'log_msg': 'failed with {err}'},
+                 {'id': 'tp2', 'kind': 'snapshot', 'mark': 'E', 'fire_count': '-1', 'watches': ['err']}]},
+        # one result of an event fails (the tracepoint logger raises): the other results of the event are kept
+        {'kind': 'scenario', 'prog': 'calls', 'inp': 2, 'plugin_faults': {'log': 'exc'},
+         'tps': [{'id': 'tp0', 'kind': 'snapshot_log', 'mark': 'A', 'fire_count': '-1', 'log_msg': 'n={n}', 'watches': ['n']},
+                 {'id': 'tp1', 'kind': 'snapshot', 'mark': 'A', 'fire_count': '-1', 'watches': []}]},
         # all four action kinds on one line of a threaded host
         {'kind': 'scenario', 'prog': 'threads', 'inp': 1,
          'tps': [{'id': 'tp0', 'kind': 'snapshot_log', 'mark': 'A', 'fire_count': '-1', 'log_msg': 'k={k}', 'watches': ['box']},
@@ -470,6 +484,12 @@ def run_impl(case):
     base = baseline(case['prog'], case['inp'])
     ref = reference(case)
     obs = {'baseline': base, 'ref_effects': ref['effects'], 'n_calls': ref['count']}
+    pf = case.get('plugin_faults') or {}
+    if case['kind'] == 'scenario' and pf and all(c == 'exc' for c in pf.values()):
+        # the same scenario with healthy plugins: what the OTHER plugins / results must still deliver
+        sc = scenario_of(case)
+        del sc['plugin_faults']
+        obs['healthy_effects'] = reference(sc)['effects']
     if case['kind'] == 'fault':
         gc.collect()
         r = agent_run(scenario_of(case), case['fault'])
@@ -532,6 +552,24 @@ def oracle(case, obs):
             if not covers(obs['effects'].get(tp), obs['ref_effects'].get(tp)):
                 v.append(f'a failure while {what} {sorted(victims)} cost effects of {tp}: '
                          f'{json.dumps(obs["effects"].get(tp))[:200]} vs {json.dumps(obs["ref_effects"].get(tp))[:200]}')
+                break
+    if 'healthy_effects' in obs:
+        owner = {'log': 'lg', 'decorate': 'd1', 'metric': 'm1', 'create_span': 's1', 'close': 's1'}
+        bad = {owner[cb] for cb in case['plugin_faults']}
+
+        def strip(eff):
+            out = {}
+            for kind, items in (eff or {}).items():
+                if kind == 'snapshots':
+                    out[kind] = [[d for d in sn if d[5:] not in bad] if isinstance(sn, list) else sn for sn in items]
+                else:
+                    out[kind] = [it for it in items if it[0] not in bad]
+            return out
+        for tp in sorted(obs['healthy_effects']):
+            if not covers(strip(obs['effects'].get(tp)), strip(obs['healthy_effects'][tp])):
+                v.append(f'a plugin callback failing with an Exception ({case["plugin_faults"]}) cost results that are not its '
+                         f'own, tracepoint {tp}: {json.dumps(strip(obs["effects"].get(tp)))[:220]} vs with healthy plugins '
+                         f'{json.dumps(strip(obs["healthy_effects"][tp]))[:220]}')
                 break
     for tp, n in ((case.get('expect_logs') or {}) if case['kind'] == 'scenario' else {}).items():
         got = len((obs['effects'].get(tp) or {}).get('logs', []))
